@@ -1,4 +1,47 @@
-/-! Spike: keyed-mutex protocol of mutexes.go as a transition system; mutual exclusion for any number of goroutines/keys. -/
+/-! Keyed-mutex protocol of mutexes.go as a labelled transition system; mutual exclusion (C13) and the safety half
+of C14 for any number of goroutines and keys.
+
+## What is modelled
+
+* One manager (`MPc`) with the three `select` cases of the Go loop: `acq k` / `rel k` are the bodies of the
+  `acquire` / `release` cases after the key has been received, `sendTok` is the manager blocked in
+  `item.release <- struct{}{}`.  The purge case is the `purge` step (one deleted entry per step).
+* Any number of goroutines (`GPc`), each either outside the package (`idle`), inside `Lock` (`sendAcq`, `needItem`,
+  `recvTok`), between `Lock`-return and `Unlock`-call (`holding`), or blocked in the channel send of `Unlock`
+  (`sendRel` for the matching Unlock, `sendRelSpur` for an Unlock by a goroutine that holds nothing).
+* `getItem` is atomic (it runs under `itemsMutex`), for the manager and for goroutines alike.
+
+## Spurious Unlock (environment step)
+
+A goroutine that holds nothing may call `Unlock k` on any key (`callUnlockSpur`, unconditional).  The Go protocol
+cannot tell *who* sends on `release`, so an Unlock by a non-holder on a key that **is** held releases the holder's lock:
+that is client misuse excluded by the doc comment of `mutexes` ("every call to Lock() must be followed by exactly one
+eventual call to Unlock()").  The model therefore lets the spurious message be *delivered* (`rdvRelSpur`) only while the
+key is free: no goroutine registered on it (`reg s k = 0`, which under the invariant is `locks = 0`).  The manager then
+processes `rel k` with exactly the code of the Go loop (`mgrRelNone`/`mgrRelLast`/`mgrRelHand`); the invariant shows only
+`mgrRelNone` can fire, i.e. "an Unlock on a key that is not held has no effect" (`Mx.spurious_unlock_noop`).
+
+## Purge and the staleness proviso
+
+The Go purge case deletes an entry when it is stale (`time.Since(item.lastAccess) > mutexStaleMutexes`, **regardless
+of `locks`**) or when the table is over `mutexMaxCacheSize` and `locks == 0`.  Time and table size are not modelled.
+The `purge` step may delete *any* entry with `locks = 0` at *any* moment the manager is idle; this over-approximates the
+size rule (whatever the size) and the stale rule for unlocked entries (whatever the age).  Deleting an entry with
+`locks > 0` is possible in the Go code only through the stale rule, and that is exactly what the proviso of C13
+("holds shorter than the staleness timeout") excludes:
+
+  every manager event on key `k` (`acq k`, `rel k`) starts with `getItem(k)`, which sets `lastAccess = now`; a goroutine
+  is granted `k` only inside such an event (token send of the acq case, or of the rel case that hands over), and the
+  goroutine's own `getItem` inside `Lock` refreshes once more.  So while `locks > 0` the current holder was granted at
+  or after the last refresh (up to the scheduling delay between `getItem` and the adjacent channel operation), and
+  `now - lastAccess ≤ delay + (time the current holder has held)`.  If every hold (plus that delay) is shorter than
+  `mutexStaleMutexes`, an entry with `locks > 0` is never stale (`Mx.held_entry_not_stale` is the arithmetic;
+  `Mx.purge_only_free` shows the modelled purge never touches a key somebody is registered on).
+
+The proviso is thus *stated* as the restriction `h0 : s.locks i = 0` of the `purge` step.  Without it (a hold longer than
+one hour) the Go code does lose the item and mutual exclusion fails; `Exec.checkProviso` flags such a deletion in a
+logged trace.
+-/
 namespace Mx
 
 notation "Key" => Nat
@@ -11,6 +54,7 @@ inductive GPc where
   | recvTok (i : Iid) (k : Key)
   | holding (k : Key)
   | sendRel (k : Key)
+  | sendRelSpur (k : Key)
 deriving DecidableEq, Repr
 
 inductive MPc where
@@ -40,7 +84,24 @@ def getItem (s : St) (k : Key) : Iid × St :=
 
 def setLocks (s : St) (i : Iid) (v : Nat) : St := { s with locks := fun j => if j = i then v else s.locks j }
 
-/-- the Boolean index says whether the step is a *progress* step (everything except a new `Lock` call and purge). -/
+/-- goroutine is registered on key `k` (in flight, waiting, holding or releasing). -/
+def isReg (k : Key) : GPc → Bool
+  | .needItem k' => k' == k
+  | .recvTok _ k' => k' == k
+  | .holding k' => k' == k
+  | .sendRel k' => k' == k
+  | _ => false
+
+def isHold (k : Key) : GPc → Bool
+  | .holding k' => k' == k
+  | .sendRel k' => k' == k
+  | _ => false
+
+def reg (s : St) (k : Key) : Nat := s.pcs.countP (isReg k)
+def hold (s : St) (k : Key) : Nat := s.pcs.countP (isHold k)
+
+/-- the Boolean index says whether the step is a *progress* step (everything except the environment steps: a new
+`Lock` call, a spurious `Unlock` call, and purge). -/
 inductive Step : Bool → St → St → Prop where
   | callLock (s : St) (g : Nat) (k : Key) (h : s.pcs[g]? = some (.idle)) :
       Step false s { s with pcs := s.pcs.set g (.sendAcq k) }
@@ -66,24 +127,15 @@ inductive Step : Bool → St → St → Prop where
   | mgrRelHand (s : St) (k : Key) (hm : s.mgr = .rel k) (h0 : 1 < (getItem s k).2.locks (getItem s k).1) :
       Step true s { setLocks (getItem s k).2 (getItem s k).1 ((getItem s k).2.locks (getItem s k).1 - 1) with
                mgr := .sendTok (getItem s k).1 k false }
+  /-- environment: a goroutine that holds nothing calls `Unlock k` (blocks in `m.release <- key`). -/
+  | callUnlockSpur (s : St) (g : Nat) (k : Key) (h : s.pcs[g]? = some (.idle)) :
+      Step false s { s with pcs := s.pcs.set g (.sendRelSpur k) }
+  /-- the spurious release message is delivered; only while nobody is registered on `k` (see header). -/
+  | rdvRelSpur (s : St) (g : Nat) (k : Key) (h : s.pcs[g]? = some (.sendRelSpur k)) (hm : s.mgr = .idle)
+      (hfree : reg s k = 0) :
+      Step true s { s with pcs := s.pcs.set g .idle, mgr := .rel k }
   | purge (s : St) (k : Key) (i : Iid) (hm : s.mgr = .idle) (ht : s.table k = some i) (h0 : s.locks i = 0) :
       Step false s { s with table := fun k' => if k' = k then none else s.table k' }
-
-/-- goroutine is registered on key `k` (in flight, waiting, holding or releasing). -/
-def isReg (k : Key) : GPc → Bool
-  | .needItem k' => k' == k
-  | .recvTok _ k' => k' == k
-  | .holding k' => k' == k
-  | .sendRel k' => k' == k
-  | _ => false
-
-def isHold (k : Key) : GPc → Bool
-  | .holding k' => k' == k
-  | .sendRel k' => k' == k
-  | _ => false
-
-def reg (s : St) (k : Key) : Nat := s.pcs.countP (isReg k)
-def hold (s : St) (k : Key) : Nat := s.pcs.countP (isHold k)
 
 /-- locks of the table's item for `k` (0 if none). -/
 def L (s : St) (k : Key) : Nat := match s.table k with | some i => s.locks i | none => 0
@@ -97,7 +149,7 @@ def InvKF (k : Key) (m : MPc) (t : Option Iid) (l r h : Nat) : Prop :=
   | .sendTok i k' b =>
       if k' = k then t = some i ∧ h = 0 ∧ (if b then l = 0 ∧ r = 1 else l = r ∧ 0 < r)
       else l = r ∧ (0 < r → h = 1)
-  | .rel k' => if k' = k then h = 0 ∧ l = r + 1 else l = r ∧ (0 < r → h = 1)
+  | .rel k' => if k' = k then h = 0 ∧ (l = r + 1 ∨ (l = 0 ∧ r = 0)) else l = r ∧ (0 < r → h = 1)
   | .idle => l = r ∧ (0 < r → h = 1)
 
 def InvK (s : St) (k : Key) : Prop := InvKF k s.mgr (s.table k) (L s k) (reg s k) (hold s k)
